@@ -28,8 +28,8 @@ from pyvc.source import parse_file
 from vgi_rpc.rpc._common import AuthContext
 
 MANIFEST = {
-    "level_text": "Deductive proof on the real redact_claims / apply_claim_redaction / _emit_access_log code: (L1) the live sensitivity pattern fully matches every name the statement lists in any ASCII case (language inclusion per keyword, regex translated by CPython's own parser incl. IGNORECASE folding and the per-alternative ^name$ anchors); (O1) structural induction on JSON depth - the step units execute redact_claims and every helper it recurses through on an object / list whose children are abstract values, with the recursive calls taken by contract at strictly smaller measure, and prove that every sensitive key (the live regex searches it) holds REDACTED, every other child is the recursively cleaned child and the key set is preserved; cross-checked by executing the real code on seven concrete nesting shapes (objects in objects, in lists, lists in lists, 4 levels) with symbolic keys and symbolic leaves; (O2) apply_claim_redaction returns exactly the installed redactor's result, or {} when it raises any Exception, and nothing escapes; (O3) _emit_access_log puts into the emitted record (logger or deferred sink) only what apply_claim_redaction returned for auth.claims, drops the field when that is empty, and no symbol of the raw claims occurs anywhere else in the record. Tests use flat claim dictionaries only.",
-    "level_note": "Induction step and shapes use objects/lists of width <= 3 (the engine has no symbolic-length comprehension; items are processed independently by one comprehension); depth is unbounded by the induction. 'search hits a key that contains a fully matched substring' is the definition of re.search (bounded native cross-check). Strings range over code points <= U+2FFFF. _emit_access_log is executed whole with the unrelated context variables at their defaults plus a syntactic scan that no statement outside the claims arm reads .claims or writes extra['claims']; what formatters/handlers do with the record afterwards is outside. BaseException-only classes (KeyboardInterrupt, SystemExit) are not 'a failing redactor'. Engine + z3/cvc5 trusted.",
+    "level_text": "Deductive proof on the real redact_claims / apply_claim_redaction / _emit_access_log code: (L1) the live sensitivity pattern fully matches every name the statement lists in any ASCII case (language inclusion per keyword, regex translated by CPython's own parser incl. IGNORECASE folding and the per-alternative ^name$ anchors); (O1) structural induction on JSON depth - the step units execute redact_claims and every helper it recurses through on an object / list whose children are abstract values, with the recursive calls taken by contract at strictly smaller measure, and prove that every sensitive key (the live regex searches it) holds REDACTED, every other child is the recursively cleaned child and the key set is preserved; cross-checked by executing the real code on eight concrete nesting shapes (objects in objects, in lists, lists in lists, 4 levels) with symbolic keys and symbolic leaves; (O2) apply_claim_redaction returns exactly the installed redactor's result, or {} when it raises any Exception, and nothing escapes; (O3) _emit_access_log puts into the emitted record (logger or deferred sink) only what apply_claim_redaction returned for auth.claims, drops the field when that is empty, and no symbol of the raw claims occurs anywhere else in the record. Tests use flat claim dictionaries only.",
+    "level_note": "Induction step and shapes use objects/lists of width <= 2 (the engine has no symbolic-length comprehension; items are processed independently by one comprehension); depth is unbounded by the induction. 'search hits a key that contains a fully matched substring' is the definition of re.search (bounded native cross-check). Strings range over code points <= U+2FFFF. _emit_access_log is executed whole with the unrelated context variables at their defaults plus a syntactic scan that no statement outside the claims arm reads .claims or writes extra['claims']; what formatters/handlers do with the record afterwards is outside. BaseException-only classes (KeyboardInterrupt, SystemExit) are not 'a failing redactor'. Engine + z3/cvc5 trusted.",
     "technique": "contract-based deductive verification: structural induction by depth with by-contract recursive calls, regex-language inclusion, exceptional postconditions, dependency (symbol-set) obligations on the emitted record; VCs by pyvc, z3 then cvc5",
     "design_ref": "DESIGN.md §5 C35",
 }
@@ -42,7 +42,7 @@ TRUSTED = [
 ]
 ASSUMPTIONS = [
     "claims are JSON-like: str-keyed objects, lists, scalars (what a JWT / introspection payload decodes to); keys of one object are pairwise distinct",
-    "width <= 3 per object/list in the step and shape units; depth unbounded (induction on (depth, call rank))",
+    "width <= 2 per object/list in the step and shape units; depth unbounded (induction on (depth, call rank))",
     "strings range over code points 0..0x2FFFF (z3 character range)",
     "custom redactor = arbitrary user code: returns any object or raises any Exception subclass",
     "_emit_access_log: context variables unrelated to claims are taken at their defaults; their independence from the claims arm is the syntactic frame obligation O3.frame",
@@ -103,11 +103,9 @@ def covers(S):
     v = S.str("variant")
     S.inputs["word"] = w
     S.assume(SBool(z3.InRe(v.t, ascii_ci(w))))
-    # fully matched by one alternative of the live pattern; a key containing v is then hit by `search`
-    # (definition of search: trusted, cross-checked natively in L1b); for the exact names, `search` itself
+    # fully matched by one alternative of the live pattern; a key containing v (for the exact names: equal to v)
+    # is then hit by `search` (definition of search: trusted, cross-checked natively in L1b)
     S.oblige(f"L1.covers[{w}]", SBool(z3.InRe(v.t, L_FULL)))
-    if w in EXACT_NAMES:
-        S.oblige(f"L1.searches_exact[{w}]", sens(v))
     if i == 0:
         S.canary("L1.canary.matches_only_lowercase", eq(v, w))
 
@@ -129,6 +127,12 @@ def search_embeds(tier, seed):
                 n += 1
                 if P.search(pre + var + post) is None:
                     fails.append(f"search({pre + var + post!r}) is None")
+    for w in EXACT_NAMES:
+        for bits in range(2 ** len(w)):
+            var = "".join(c.upper() if bits >> i & 1 else c for i, c in enumerate(w))
+            n += 1
+            if P.search(var) is None:
+                fails.append(f"search({var!r}) is None")
     return BoundedResult(n, fails)
 
 
@@ -247,13 +251,14 @@ def Ls(*children):
 
 
 SHAPES = [
-    ("flat", O("s", "i", "n")),
+    ("flat", O("s", "i")),
+    ("null_leaf", O("n")),
     ("obj_in_obj", O(O("s"), "s")),
     ("list_of_objs", O(Ls(O("s"), "s", O("s")))),
     ("obj_in_list_in_obj", O(O(Ls(O("s"))))),
     ("list_in_list", O(Ls(Ls(O("s"))))),
     ("four_levels", O(O(O(O("s"))))),
-    ("mixed", O("s", Ls("s", O("s", Ls(O("s")))))),
+    ("mixed", O(Ls("s", O("s", Ls(O("s")))))),
 ]
 
 
@@ -296,6 +301,9 @@ def to_native(desc):
 
 
 def replay_redact(inputs, ob):
+    if not isinstance(inputs.get("claims"), (tuple, list)):  # the solver's model did not cover the claims: hunt natively
+        found = search_redact(ob, 0) if ob is not None else None
+        return found[1] if found else ReplayResult(False, "no usable model and the native search found no failing input")
     claims = to_native(inputs["claims"])
     try:
         out = lu.redact_claims(claims)
@@ -358,7 +366,7 @@ def shapes(S):
     S.oblige(f"O1.clean[{name}]", clean(out.value))
     S.oblige(f"O1.keys_preserved[{name}]", keys_preserved(claims, out.value))
     S.oblige(f"O1.result_is_a_new_object[{name}]", out.value is not claims, kind="post")
-    if name == "four_levels":
+    if name == "four_levels" and isinstance(out.value, dict) and not any(isinstance(v, str) for v in out.value.values()):
         S.canary("O1.canary.everything_redacted", And(*[is_redacted(v) for v in out.value.values()]) if isinstance(out.value, dict) else False)
 
 
@@ -459,15 +467,28 @@ def make_node(S, kind, width):
 
 
 def replay_step(inputs, ob):
-    # the step's counter-models are replayed on the smallest concrete instance of the node: every abstract child
-    # becomes an object holding one sensitive entry (so a child that skipped the recursion shows up natively)
+    # The step's children are abstract, so its counter-models have no direct native twin: the refutation is
+    # replayed on concrete instances of the node whose children are small nested values holding one sensitive
+    # entry at depth 1..3 (a child that skipped the recursion, or was only cleaned one level deep, shows up).
+    secret = {"password": "p"}
+    fillers = [secret, {"ctx": secret}, [secret], [[secret]], {"a": [{"b": secret}]}, {"a": {"b": {"c": secret}}}]
     keys = [inputs[k] for k in sorted(inputs) if re.fullmatch(r"k\d+", k) and isinstance(inputs[k], str)]
-    leaf = {"password": "p"}
+    keys = [k for k in keys if not py_sens(k)] or ["ctx"]
     kind = inputs.get("node_kind")
-    claims = {k: dict(leaf) for k in keys} if kind == "obj" else {"items": [dict(leaf) for _ in range(max(1, inputs.get("width", 1)))]}
-    out = lu.redact_claims(claims)
-    bad = py_unclean(out) or py_keys_lost(claims, out)
-    return ReplayResult(bad is not None, f"redact_claims({claims!r}) -> {out!r}: {bad or 'clean'}")
+    last = "no instance tried"
+    for f in fillers:
+        import copy
+
+        claims = {k: copy.deepcopy(f) for k in keys} if kind == "obj" else {"items": [copy.deepcopy(f) for _ in range(max(1, inputs.get("width") or 1))]}
+        try:
+            out = lu.redact_claims(claims)
+        except Exception as e:
+            return ReplayResult(True, f"redact_claims({claims!r}) raised {type(e).__name__}: {e}")
+        bad = py_unclean(out) or py_keys_lost(claims, out)
+        last = f"redact_claims({claims!r}) -> {out!r}: {bad or 'clean'}"
+        if bad:
+            return ReplayResult(True, last)
+    return ReplayResult(False, last)
 
 
 @unit(
@@ -483,7 +504,7 @@ def step(S):
     fn = getattr(lu, fname)
     kinds = ["obj"] if fname == "redact_claims" else ["obj", "list", "scalar"]
     kind = kinds[S.choose(len(kinds))]
-    width = 0 if kind == "scalar" else S.choose(4)
+    width = 0 if kind == "scalar" else S.choose(3)
     node, children = make_node(S, kind, width)
     S.inputs.update({"function": fname, "node_kind": kind, "width": width})
     install_hypothesis(S, fname, node, children)
@@ -493,7 +514,7 @@ def step(S):
         return
     S.oblige(f"O1.step.cleaned[{fname}:{kind}]", step_rel(node, out.value))
     S.oblige(f"O1.step.clean_by_definition[{fname}:{kind}]", clean(out.value))
-    if fname == "redact_claims" and width == 2:
+    if fname == "redact_claims" and width == 1:
         S.canary("O1.step.canary.recursion_never_used", SBool(z3.BoolVal(not S.events("rec"))))
 
 
